@@ -8,6 +8,31 @@ use serde_json::{json, Value};
 use std::io::Write;
 use std::sync::Mutex;
 
+/// class sets are the subject of C09; the facts events keep the set only where an obligation needs it
+fn strip_sets(v: &Value) -> Value {
+    match v {
+        Value::Object(o) => {
+            let mut m = serde_json::Map::new();
+            for (k, x) in o {
+                if k == "set" && o.get("k") == Some(&json!("class")) && o.len() == 2 {
+                    // keep the set of a bare class (preconditions use it), but cap its size
+                    if x.as_array().map(|a| a.len()).unwrap_or(0) <= 64 {
+                        m.insert(k.clone(), x.clone());
+                    } else {
+                        m.insert(k.clone(), json!([[0, 1114111]]));
+                        m.insert("wide".to_string(), json!(true));
+                    }
+                } else {
+                    m.insert(k.clone(), strip_sets(x));
+                }
+            }
+            Value::Object(m)
+        }
+        Value::Array(a) => Value::Array(a.iter().map(strip_sets).collect()),
+        x => x.clone(),
+    }
+}
+
 fn job(id: u64, pat: &str, flags: &str, xpath: bool, inputs: &[String], repls: &[String], unopt: bool) -> Value {
     let mut calls = Vec::new();
     for s in inputs {
@@ -189,7 +214,7 @@ pub fn main(args: &[String]) -> i32 {
                 let opt = |v: &Value| if v.is_null() { json!({"some": false, "v": []}) } else { json!({"some": true, "v": v}) };
                 let ev = json!({"ev":"facts","pat":job["pat"],"flags":job["flags"],"xpath":job["x"],
                                 "facts":{"prefix":opt(&fa["prefix"]),"initial":opt(&fa["initial"]),"minlen":fa["minlen"],
-                                         "hasbol":fa["hasbol"],"pre":fa["pre"]}});
+                                         "hasbol":fa["hasbol"],"pre":strip_sets(&fa["pre"]),"ops":strip_sets(&fa["ops"])}});
                 let _ = writeln!(facts_out.lock().unwrap(), "{}", ev);
             }
         }
